@@ -7,7 +7,7 @@ IsScript(in) == in.kind = "script"
 \* Empty input still runs the command once (C04), with the recorder's default outcome 0.
 Eff(in) == IF in.outs = <<>> THEN <<0>> ELSE in.outs
 
-InDomain(in) == IsScript(in) => InDomainOuts(Eff(in))
+InDomain(in, obs) == IsScript(in) => InDomainOuts(Eff(in))
 
 Expected(in) ==
   IF IsScript(in) THEN RefExit(Eff(in))
